@@ -3,6 +3,9 @@
 (* stand-alone module (class SFCModel(BaseSolver)) it writes; sfc_models/base_solver.py.      *)
 (*                                                                                            *)
 (* One action per public call / section of the code:                                         *)
+(*   RejectBlock(b)     IterativeMachineGenerator(text) raises NameError: a variable of the   *)
+(*                      block is named like an attribute / method / local of the generated    *)
+(*                      class; nothing is generated                                           *)
 (*   ParseBlock(b)      IterativeMachineGenerator(text) -> ParseString: the shared            *)
 (*                      EquationParser fills Endogenous / Lagged / Exogenous /                *)
 (*                      InitialConditions / MaxTime; without a user time axis it appends      *)
@@ -42,12 +45,26 @@ CONSTANTS
     MathNames,            \* names the generated module gets from  "from math import *"
     ResidChoices,         \* values RunStep may take for the residual flag ({TRUE} in the bounded instance)
     MaxGenerations,       \* how many modules one generator object may write (main() called that often)
-    AsFound_KUndefined    \* TRUE: the pinned code - nothing in the generated module binds k
+    AsFound_KUndefined,   \* TRUE: the pinned code - nothing in the generated module binds k
+    AsFound_ChainedLagNoSeries,
+                          \* TRUE: the pinned code - a lagged variable that another lagged variable refers to
+                          \* (b in  a = b(k-1), b = c(k-1)) is read as self.b[STEP-1] but no series self.b exists
+    AsFound_OwnNamesAccepted
+                          \* TRUE: the pinned code - a block variable named like an attribute / method / local of
+                          \* the generated class (STEP, main, orig_vector, ...) is accepted and captures that name
 
 Range(s) == { s[i] : i \in DOMAIN s }
 NamesOf(s) == [ i \in DOMAIN s |-> s[i].name ]
 Min(a, b) == IF a < b THEN a ELSE b
 Count(s, x) == Cardinality({ i \in DOMAIN s : s[i] = x })
+
+(* names of the generated class that a block variable of the same name would capture: every   *)
+(* series is stored as self.<variable> (attributes and methods of SFCModel / BaseSolver) and   *)
+(* the unpack section indexes the local orig_vector after re-binding the variables            *)
+ModuleOwnNames == {"STEP", "MaxTime", "MaxIterations", "Err_Tolerance", "PrintIterations", "VariableList",
+                   "main", "RunOneStep", "Iterator", "CalcError", "WriteCSV", "CreateCsvString", "orig_vector"}
+(* loop state of the fixed-point iteration in RunOneStep: must not be a block variable's value *)
+LoopNames == {"err", "cnt"}
 
 ----------------------------------------------------------------------------
 (* EquationParser.ParseString as seen through IterativeMachineGenerator.ParseString *)
@@ -78,13 +95,24 @@ GenEqOp(p) ==
                        \o [ i \in DOMAIN p.lagged |-> << p.lagged[i].name >> ]
                        \o [ i \in DOMAIN exos2 |-> << exos2[i].name >> ] ]
 
+(* lagged variables whose own history is needed because another lagged variable refers to them *)
+Chained(p) == SelectSeq(NamesOf(p.lagged), LAMBDA nm : \E j \in DOMAIN p.lagged : p.lagged[j].of = nm)
+LagPos(p, nm) == CHOOSE i \in DOMAIN p.lagged : p.lagged[i].name = nm
+
+(* the generator refuses (NameError from ParseString, like the parser's reserved words) a block *)
+(* with a variable that would capture a name of the generated class                             *)
+BlockNames(b) == Range(NamesOf(b.endo)) \cup Range(NamesOf(b.lagged)) \cup Range(NamesOf(b.exos))
+Accepts(b) == AsFound_OwnNamesAccepted \/ BlockNames(b) \cap ModuleOwnNames = {}
+
 (* BaseSolver.CreateCsvString: 't' first when present, the rest in VariableList order *)
 HeaderOf(vl) ==
     IF "t" \in Range(vl) THEN << "t" >> \o SelectSeq(vl, LAMBDA x : x # "t") ELSE vl
 
 (* GenerateFile: the sections of the written module *)
 GenFileOp(p, g) ==
+    LET ch == IF AsFound_ChainedLagNoSeries THEN << >> ELSE Chained(p) IN
     [ decl     |-> [ i \in DOMAIN p.endo |-> [name |-> p.endo[i].name, len |-> 1] ]
+                   \o [ i \in DOMAIN ch |-> [name |-> ch[i], len |-> 1] ]
                    \o [ i \in DOMAIN g.exos |->
                           [name |-> g.exos[i].name, len |-> Min(g.exos[i].len, p.maxTime + 1)] ],
       pack     |-> [ i \in DOMAIN p.endo |->
@@ -97,12 +125,20 @@ GenFileOp(p, g) ==
       iterUnpack |-> g.all,
       iterBinds  |-> g.all,                 \* NEW_<v>, in this order, returned in this order
       iterReads  |-> g.eqReads,
-      unpack   |-> [ i \in DOMAIN p.endo |-> [name |-> p.endo[i].name, pos |-> i - 1] ],
+      unpack   |-> [ i \in DOMAIN p.endo |-> [name |-> p.endo[i].name, pos |-> i - 1] ]
+                   \o [ i \in DOMAIN ch |-> [name |-> ch[i], pos |-> Len(p.endo) + LagPos(p, ch[i]) - 1] ],
+      loopAfterPack |-> TRUE,               \* err = 1. / cnt = 0 are assigned after the variables are packed
       varList  |-> g.nonLagged,
       header   |-> HeaderOf(g.nonLagged) ]
 
 ClosedFile(f) ==
     \A i \in DOMAIN f.iterReads : Range(f.iterReads[i]) \subseteq (Range(f.iterUnpack) \cup MathNames)
+
+(* the loop state the while loop of RunOneStep reads is its own: no pack line (local assignment *)
+(* of a block variable) comes between its initialisation and the loop                          *)
+LoopStateOwn(f) == f.loopAfterPack \/ Range(NamesOf(f.pack)) \cap LoopNames = {}
+(* no block variable captures a name of the generated class *)
+NoOwnNameCaptured(f) == Range(NamesOf(f.pack)) \cap ModuleOwnNames = {}
 
 (* import + SFCModel(): every declared series exists with its declared length *)
 NoModule == [status |-> "none", STEP |-> 0, lens |-> << >>, reads |-> << >>, resid |-> TRUE]
@@ -124,8 +160,12 @@ RunStepOp(f, m, r) ==
                     [] pr.idx = "STEP-1" -> step - 1
                     [] OTHER             -> step
         appended == { f.unpack[i].name : i \in DOMAIN f.unpack }
-    IN IF \E i \in DOMAIN f.pack : ~PackOk(f.pack[i])
-       THEN [m EXCEPT !.STEP = step, !.status = "IndexError"]
+    IN IF ~NoOwnNameCaptured(f)
+       THEN [m EXCEPT !.STEP = step, !.status = "NameCaptured"]
+       ELSE IF \E i \in DOMAIN f.pack : ~PackOk(f.pack[i])
+       THEN [m EXCEPT !.STEP = step, !.status = "PackError"]
+       ELSE IF ~LoopStateOwn(f)
+       THEN [m EXCEPT !.STEP = step, !.status = "LoopStateCaptured"]   \* iteration skipped / spurious 'No Convergence!'
        ELSE IF ~ClosedFile(f)
        THEN [m EXCEPT !.STEP = step, !.status = "NameError"]
        ELSE [m EXCEPT !.STEP = step,
@@ -138,7 +178,7 @@ RunStepOp(f, m, r) ==
                       !.resid = r]
 
 ----------------------------------------------------------------------------
-VARIABLES phase,    \* "init" | "parsed" | "equations" | "file" | "imported" | "running" | "done"
+VARIABLES phase,    \* "init" | "rejected" | "parsed" | "equations" | "file" | "imported" | "running" | "done"
           ngen,     \* number of modules this generator object has written
           blk,      \* the block given to the generator (history)
           parser,   \* the parser lists held by the generator
@@ -152,17 +192,28 @@ NoBlock  == [endo |-> << >>, lagged |-> << >>, exos |-> << >>, ics |-> << >>, ma
 NoParser == [endo |-> << >>, lagged |-> << >>, exos |-> << >>, ics |-> << >>, maxTime |-> 0]
 NoGen    == [exos |-> << >>, all |-> << >>, nonLagged |-> << >>, eqReads |-> << >>]
 NoFile   == [decl |-> << >>, pack |-> << >>, orig |-> << >>, iterUnpack |-> << >>, iterBinds |-> << >>,
-             iterReads |-> << >>, unpack |-> << >>, varList |-> << >>, header |-> << >>]
+             iterReads |-> << >>, unpack |-> << >>, loopAfterPack |-> TRUE, varList |-> << >>, header |-> << >>]
 
 Init == /\ phase = "init" /\ ngen = 0 /\ blk = NoBlock /\ parser = NoParser /\ gen = NoGen /\ file = NoFile
         /\ mod = NoModule
 
-ParseBlock(b) ==
+ParseAccept(b) ==
     /\ phase = "init"
     /\ phase' = "parsed"
     /\ blk' = b
     /\ parser' = ParseOp(b)
     /\ UNCHANGED << ngen, gen, file, mod >>
+
+ParseBlock(b) == Accepts(b) /\ ParseAccept(b)
+
+(* the constructor raises NameError: nothing is generated from this block *)
+ParseReject(b) ==
+    /\ phase = "init"
+    /\ phase' = "rejected"
+    /\ blk' = b
+    /\ UNCHANGED << ngen, parser, gen, file, mod >>
+
+RejectBlock(b) == ~Accepts(b) /\ ParseReject(b)
 
 GenerateEquations ==
     /\ phase = "parsed"
@@ -199,7 +250,7 @@ Regenerate ==
     /\ gen' = NoGen /\ file' = NoFile /\ mod' = NoModule
     /\ UNCHANGED << ngen, blk, parser >>
 
-Next == \/ (phase = "init" /\ \E b \in Blocks : ParseBlock(b))
+Next == \/ (phase = "init" /\ \E b \in Blocks : (ParseBlock(b) \/ RejectBlock(b)))
         \/ GenerateEquations
         \/ GenerateFile
         \/ Import
@@ -215,6 +266,11 @@ Stepped == phase \in {"running", "done"} /\ mod.STEP >= 1
 
 (* every name the generated Iterator reads is bound by the unpacking of in_vec or comes from math *)
 C20_Closed == HasFile => ClosedFile(file)
+
+(* the loop state of the generated step is distinct from every block variable; no block variable *)
+(* captures a name of the generated class                                                         *)
+C20_LoopStateOwn == HasFile => LoopStateOwn(file)
+C20_NoNameCapture == HasFile => NoOwnNameCaptured(file)
 
 (* the table lists 't' first and every non-lagged variable of the block exactly once *)
 NonLaggedOfBlock(p) == Range(NamesOf(p.endo)) \cup Range(NamesOf(p.exos))
@@ -242,7 +298,7 @@ C20_StepSatisfiesEquations == Stepped => SatisfiesOf(mod)
 C20_RunsClean == mod.status \in {"none", "ok"}
 
 TypeOK == /\ ngen \in 0..MaxGenerations
-          /\ phase \in {"init", "parsed", "equations", "file", "imported", "running", "done"}
+          /\ phase \in {"init", "rejected", "parsed", "equations", "file", "imported", "running", "done"}
           /\ mod.STEP <= parser.maxTime
-          /\ mod.status \in {"none", "ok", "NameError", "IndexError"}
+          /\ mod.status \in {"none", "ok", "NameError", "PackError", "LoopStateCaptured", "NameCaptured"}
 =============================================================================
